@@ -420,4 +420,26 @@ theorem getMatchScoreC_ne_none (d : Doc) (alts : List (List MStep)) (n : Nat) :
     · simp [h, ih]
     · simp [h]
 
+theorem getMatchScoreAltC_eq (d : Doc) (alts : List (List MStep)) (i n : Nat) :
+    getMatchScoreAltC v d alts i n = match alts[i]? with | some a => lpp v d a n | none => Score.none := by
+  induction alts generalizing i with
+  | nil => simp [getMatchScoreAltC]
+  | cons a as ih =>
+    cases i with
+    | zero => simp [getMatchScoreAltC]
+    | succ i => simp [getMatchScoreAltC, ih]
+
+/-- the union entry point returns the score of the first alternative whose own score is not None -/
+theorem getMatchScoreC_first (d : Doc) (alts : List (List MStep)) (n : Nat) :
+    getMatchScoreC v d alts n = ((alts.map fun a => lpp v d a n).find? (· != Score.none)).getD Score.none := by
+  induction alts with
+  | nil => simp [getMatchScoreC]
+  | cons a as ih =>
+    simp only [getMatchScoreC, List.map_cons, List.find?_cons]
+    by_cases h : lpp v d a n = Score.none
+    · simp [h, ih]
+    · have hb : (lpp v d a n != Score.none) = true := by simpa using h
+      have hb2 : (lpp v d a n == Score.none) = false := by simpa using h
+      simp [hb, hb2]
+
 end XalanModel.C09
